@@ -274,6 +274,10 @@ def pi_theorem(quantities: dict[str, Any], registry: UnitRegistry | None = None)
 
     dimensions = list(dimensions)
 
+    if not dimensions:
+        # Every quantity is already dimensionless: each one is a pi group on its own.
+        return [{name: 1} for name, _ in quant]
+
     # Calculate dimensionless  quantities
     matrix = [
         [dimensionality[dimension] for name, dimensionality in quant]
